@@ -83,6 +83,12 @@ pub struct ReqLog {
     /// wall-clock time at which the request was served
     #[serde(skip, default = "Utc::now")]
     pub wall: DateTime<Utc>,
+    /// position in the order in which requests (of any kind, pauses included) were served; 0 = not served
+    #[serde(default)]
+    pub served: u64,
+    /// how many requests had been served when this one arrived
+    #[serde(default)]
+    pub arrival_served: u64,
 }
 
 #[derive(Clone, Debug)]
@@ -148,6 +154,7 @@ struct State {
     next_id: u64,
     node_seq: BTreeMap<u32, u64>,
     effect_seq: u64,
+    served: u64,
     /// free-running fault plan: (global ordinal among *counted* requests, decision)
     fault_plan: BTreeMap<u64, Decision>,
     /// ordinal counter for the fault plan (counts only requests matching `fault_filter_node`)
@@ -355,7 +362,8 @@ impl SimCore {
             let id = st.next_id;
             st.next_id += 1;
             let dead = st.dead.contains(&desc.node);
-            st.log.push(ReqLog { id, desc: desc.clone(), decision: None, outcome: if dead { "dead".into() } else { "parked".into() }, effect_seq: 0, seen_seq: 0, wall: Utc::now() });
+            let arrival_served = st.served;
+            st.log.push(ReqLog { id, desc: desc.clone(), decision: None, outcome: if dead { "dead".into() } else { "parked".into() }, effect_seq: 0, seen_seq: 0, wall: Utc::now(), served: 0, arrival_served });
             if dead {
                 G::Dead
             } else {
@@ -411,7 +419,10 @@ impl SimCore {
     pub fn finish(&self, id: u64, outcome: &str, effect_seq: u64) {
         let mut st = self.st.lock();
         let seen = st.effect_seq;
+        st.served += 1;
+        let served = st.served;
         if let Some(l) = st.log.iter_mut().rev().find(|l| l.id == id) {
+            l.served = served;
             l.outcome = outcome.to_string();
             l.effect_seq = effect_seq;
             l.seen_seq = seen;
